@@ -224,6 +224,8 @@ func checkC06(p *Program, r *Report) {
 		r.Unresolved("C06.total", "NewWIF")
 	}
 	r.Floor("C06.total", 1)
+	// round 6: a fixed-length digit buffer in a big.Int-free Base58 conversion must be long enough (shared with C07.exact)
+	radixBufferRule(p, r, "C06.canon")
 	r.Floor("C06.accepts", 3)
 	r.Floor("C06.len", 1)
 	r.Floor("C06.canon", 1)
